@@ -418,7 +418,8 @@ class PartialJoin(UnaryOperation):
                             f"that are also present in {self.fixed}",
                         ),
                     )
-                shadowed = (self.fixed.columns - self.binary.common_columns) & current.operation.columns_required
+                common_columns = self.binary.applied_common_columns(self.fixed, current)
+                shadowed = (self.fixed.columns - common_columns) & current.operation.columns_required
                 if shadowed:
                     # After the join these names may refer to the fixed
                     # relation's columns instead of the target's.
